@@ -4,7 +4,7 @@ from props import endpoint, receiver, resume
 
 
 def check(pid, tier, replay):
-    names = ["da", "db", "dc", "lb"] if tier == "thorough" else ["a", "b", "lb"]
+    names = ["da", "db", "dc", "lb", "x"] if tier == "thorough" else ["a", "b", "lb", "x"]
     gens = [("endpoint/SettleGen", "endpoint/SettleGen_%s.cfg" % n) for n in names] + receiver.gens(tier)[:2] + [("endpoint/SettleRaceGen", "endpoint/SettleRaceGen.cfg"), ("endpoint/StreamGen", "endpoint/StreamGen.cfg")] + endpoint.mix_gens(pid, tier)
     verdict = vlib.Verdict(pid, tier)
     # what a send resolves with when the link is resumed: the resumption table against the real decision function
